@@ -36,13 +36,13 @@ SetSum(S) == Cardinality(S)
 
 NoHdr == [run |-> 0, planner |-> "none", mode |-> "none", lvs |-> 1, maxd |-> 0, rad |-> 0, tol |-> 0,
           bias |-> "p", seeded |-> FALSE]
-NoApi == [pd |-> 0, T |-> 0, road |-> <<>>, gvalid |-> TRUE]
+NoQ == [sc |-> <<>>, goalf |-> <<>>, pidx |-> <<>>]
+NoApi == [pd |-> 0, T |-> 0, road |-> <<>>, gvalid |-> TRUE, road0 |-> 0, q |-> NoQ]
 
 Init ==
   /\ l = 1 /\ hdr = NoHdr /\ trees = <<<<>>, <<>>>> /\ acc = {} /\ api = NoApi /\ nviol = 0
 
-Report(v) == IF v = {} THEN TRUE ELSE PrintT(<<"VIOL", hdr.run, l, v>>)
-ReportH(h, v) == IF v = {} THEN TRUE ELSE PrintT(<<"VIOL", h.run, l, v>>)
+Report(v) == IF v = {} THEN TRUE ELSE PrintT("VIOL " \o ToString(hdr.run) \o " " \o ToString(l) \o " " \o ToString(v))
 
 L(cond, label) == IF cond THEN {label} ELSE {}
 
@@ -135,7 +135,7 @@ EvSetup(e) ==
   IN /\ Report(v)
      /\ trees' = SnapTrees(e.snap)
      /\ acc' = {}
-     /\ api' = [pd |-> e.pd, T |-> 0, road |-> <<>>,
+     /\ api' = [pd |-> e.pd, T |-> 0, road |-> SnapRoad(e.snap), road0 |-> 0, q |-> NoQ,
                  gvalid |-> \A i \in 1 .. Len(e.roots) : e.roots[i].tr = 2 => e.roots[i].valid]
      /\ nviol' = nviol + Cardinality(v)
      /\ UNCHANGED hdr
@@ -193,6 +193,104 @@ EvIter(e) ==
      /\ nviol' = nviol + Cardinality(v)
      /\ UNCHANGED <<hdr, api>>
 
+(***************************************************************************)
+(* PRM (C01, C03, C05, C06, C08, C18)                                      *)
+(***************************************************************************)
+EvConstruct(e) ==
+  /\ api' = [api EXCEPT !.T = e.T, !.road0 = Len(api.road)]
+  /\ UNCHANGED <<hdr, trees, acc, nviol>>
+
+PSampleLabels(e, accNew) ==
+  LET tol == hdr.tol IN
+      L(e.t > api.T, "C06/deadline-at-top")
+ \cup L(api.road0 > 0, "C18/construct-idempotent")
+ \cup L(e.q # 0 /\ e.valid /\ ~e.pushed, "C18/milestones")
+ \cup L(e.pushed /\ ~e.valid, "C18/milestones")
+ \cup L(e.pushed /\ e.q \notin accNew, "C01/node-valid")
+ \cup L(\E j \in 1 .. Len(e.links) : e.links[j].linked /\ e.links[j].inr = 0, "C05/edge-length")
+ \cup L(\E j \in 1 .. Len(e.links) : e.links[j].linked /\ e.links[j].orc = 1, "C18/edge-justified")
+ \cup L(\E j \in 1 .. Len(e.links) : e.links[j].linked
+            /\ ~CoversPos(e.links[j].cov, e.links[j].len, hdr.lvs, tol), "C03/coverage[link]")
+ \cup L(\E j \in 1 .. Len(e.links) : ~e.links[j].linked /\ e.links[j].inr = 1 /\ e.links[j].orc = 0,
+        "C18/edge-complete")
+
+EvPSample(e) ==
+  LET accNew == acc \cup ToSet(e.newacc)
+      v == IF e.q = 0 THEN {} ELSE PSampleLabels(e, accNew)
+      me == Len(api.road) + 1
+      lk == {e.links[j].i : j \in {j \in 1 .. Len(e.links) : e.links[j].linked}}
+      r2 == IF e.pushed
+              THEN Append([i \in 1 .. Len(api.road) |-> IF i \in lk THEN api.road[i] \cup {me} ELSE api.road[i]], lk)
+              ELSE api.road
+  IN /\ Report(v)
+     /\ acc' = accNew
+     /\ api' = [api EXCEPT !.road = r2]
+     /\ nviol' = nviol + Cardinality(v)
+     /\ UNCHANGED <<hdr, trees>>
+
+RoadEq(a, b) == Len(a) = Len(b) /\ \A i \in 1 .. Len(a) : a[i] = b[i]
+
+EvCRet(e) ==
+  LET sr == SnapRoad(e.snap)
+      v ==  L(e.kind = "panic", "C08/panic@" \o e.site)
+       \cup L(e.kind = "abort", "C06/no-return")
+       \cup L(e.kind = "querycap", "C06/unbounded")
+       \cup L(api.pd = 0 /\ e.kind \notin {"uninit", "panic"}, "C08/outcome")
+       \cup L(api.pd # 0 /\ e.kind \notin {"unit", "panic", "abort", "querycap"}, "C08/outcome")
+       \cup L(e.kind # "panic" /\ ~RoadEq(sr, api.road), "C18/snapshot")
+       \cup RoadLabels(e.snap)
+  IN /\ Report(v)
+     /\ api' = [api EXCEPT !.road = sr]
+     /\ nviol' = nviol + Cardinality(v)
+     /\ UNCHANGED <<hdr, trees, acc>>
+
+EvQuery(e) ==
+  /\ acc' = acc \cup ToSet(e.newacc)
+  /\ api' = [api EXCEPT !.q = e]
+  /\ UNCHANGED <<hdr, trees, nviol>>
+
+\* hop levels in the roadmap graph from a source set; result: function on reachable nodes
+RECURSIVE RLevels(_, _, _, _)
+RLevels(road, front, seen, lev) ==
+  IF front = {} THEN [i \in {} |-> 0]
+  ELSE LET nxt == {j \in 1 .. Len(road) : j \notin seen /\ \E i \in front : j \in road[i]}
+           rest == RLevels(road, nxt, seen \cup nxt, lev + 1)
+       IN [i \in front \cup DOMAIN rest |-> IF i \in front THEN lev ELSE rest[i]]
+\* number of milestones on a hop-minimal chain from S to G (0 = none exists)
+MinChain(road, S, G) ==
+  LET lv == RLevels(road, S, S, 0)
+      R  == DOMAIN lv \cap G
+  IN IF R = {} THEN 0
+     ELSE 1 + (CHOOSE m \in {lv[g] : g \in R} : \A g \in R : m <= lv[g])
+
+QueryLabels(e) ==
+  LET q    == api.q
+      road == api.road
+      nm   == Len(q.sc)
+      must == {k \in 1 .. nm : q.sc[k].inr = 1 /\ q.sc[k].orc = 0}
+      may  == {k \in 1 .. nm : q.sc[k].inr # 0 /\ q.sc[k].orc # 1}
+      G    == {k \in 1 .. nm : q.goalf[k]}
+      lo   == MinChain(road, may, G)
+      hi   == MinChain(road, must, G)
+      p    == q.pidx
+      tol  == hdr.tol
+  IN  L(api.pd # 0 /\ Len(road) = 0 /\ e.kind \notin {"unsampled", "panic"}, "C08/outcome")
+ \cup L(e.kind = "unsampled" /\ Len(road) # 0, "C08/outcome")
+ \cup L(api.pd # 0 /\ Len(road) # 0 /\ ~e.start_valid /\ e.kind \notin {"invalidstart", "panic"}, "C08/outcome")
+ \cup (IF api.pd = 0 \/ Len(road) = 0 \/ ~e.start_valid \/ nm # Len(road) THEN {}
+      ELSE  L(e.kind = "nosolution" /\ hi # 0, "C18/query-complete")
+       \cup L(e.kind = "ok" /\ lo = 0, "C18/query-complete")
+       \cup L(e.kind \notin {"ok", "nosolution", "timeout", "panic"}, "C08/outcome")
+       \cup (IF e.kind = "ok" THEN
+               IF Len(p) = 0 \/ \E k \in 1 .. Len(p) : p[k] \notin 1 .. nm THEN {"C18/path-milestones"}
+               ELSE  L(q.sc[p[1]].inr = 0, "C05/edge-length")
+                \cup L(~CoversPos(q.sc[p[1]].cov, q.sc[p[1]].len, hdr.lvs, tol), "C03/coverage[startconn]")
+                \cup L(\E k \in 1 .. (Len(p) - 1) : p[k + 1] \notin road[p[k]], "C03/path-edges")
+                \cup L(~q.goalf[p[Len(p)]], "C02/last-goal")
+                \cup L(lo # 0 /\ Len(p) < lo, "C18/hop-minimal")
+                \cup L(hi # 0 /\ Len(p) > hi, "C18/hop-minimal")
+             ELSE {}))
+
 \* every consecutive pair of a returned path is a parent link of some tree (either direction)
 IsLink(a, b) ==
   \E t \in 1 .. 2 : \E i \in 1 .. Len(trees[t]) :
@@ -216,7 +314,11 @@ CommonRetLabels(e) ==
           L(Len(e.path) = 0, "C02/nonempty")
      \cup L(~e.first_is_start, "C02/first")
      \cup L(~e.last_goal, "C02/last-goal")
-     \cup L(\E k \in 1 .. Len(e.path) : ~e.pvalid[k], "C01/path-valid")
+     \cup L(Len(e.path) >= 1 /\ ~e.pvalid[1], "C01/path-start-invalid")
+     \cup L(Len(e.path) >= 2 /\ ~e.pvalid[Len(e.path)] /\ Len(trees[2]) >= 1 /\ e.path[Len(e.path)] = trees[2][1].s,
+            "C01/path-goalroot-invalid")
+     \cup L(\E k \in 2 .. Len(e.path) : ~e.pvalid[k] /\
+              ~(k = Len(e.path) /\ Len(trees[2]) >= 1 /\ e.path[k] = trees[2][1].s), "C01/path-valid")
      \cup L(e.start_inb /\ \E k \in 1 .. Len(e.path) : ~e.pinb[k], "C04/in-bounds")
      \cup L(\E k \in 1 .. Len(e.plen) : e.plen[k] > Bound + hdr.tol, "C05/edge-length")
        ELSE {})
@@ -225,6 +327,7 @@ EvRet(e) ==
   LET tree_pl == hdr.planner \in {"rrt", "rrtstar", "rrtc"}
       snapT == SnapTrees(e.snap)
       v == CommonRetLabels(e)
+        \cup (IF hdr.planner = "prm" THEN QueryLabels(e) ELSE {})
         \cup (IF tree_pl THEN
                  L(~TreesEqual(snapT[1], trees[1]) \/ ~TreesEqual(snapT[2], trees[2]), "C15/snapshot")
             \cup L(e.kind = "ok" /\ \E k \in 1 .. (Len(e.path) - 1) : ~IsLink(e.path[k], e.path[k + 1]), "C03/path-edges")
@@ -234,6 +337,7 @@ EvRet(e) ==
      /\ trees' = IF tree_pl THEN snapT ELSE trees
      /\ nviol' = nviol + Cardinality(v)
      /\ UNCHANGED <<hdr, acc, api>>
+
 
 Next ==
   /\ l <= N
@@ -246,6 +350,10 @@ Next ==
          [] e.ev = "pre"   -> EvPre(e)
          [] e.ev = "iter"  -> EvIter(e)
          [] e.ev = "ret"   -> EvRet(e)
+         [] e.ev = "construct" -> EvConstruct(e)
+         [] e.ev = "psample" -> EvPSample(e)
+         [] e.ev = "cret"  -> EvCRet(e)
+         [] e.ev = "query" -> EvQuery(e)
 
 Spec == Init /\ [][Next]_mvars
 
